@@ -98,6 +98,102 @@ func ruleValCons(c *Ctx) {
 	sort.Strings(missing)
 	c.check(len(missing) == 0, "numStr:producers-complete", token.NoPos, "every producer of input-derived values constructs numeric strings", fmt.Sprintf("producers %v no longer construct numeric-string values: input that looks numeric would compare as a string (or a plain string constructor is used for input text)", missing))
 	c.atLeast("numStr construction sites", len(sites), 12)
+	// (1b) the compiler never turns a number into its string form ahead of time, except through an integer
+	// conversion (whose text does not depend on CONVFMT; R-F2I decides that the value is an integer there): CONVFMT
+	// is a run-time setting, so a constant subscript or operand formatted at compile time would name a different
+	// string than the same number held in a variable
+	{
+		nFns, bad := 0, 0
+		// only what Compile can reach (the disassembler may print numbers as it likes)
+		reach := map[*ssa.Function]bool{}
+		var visit func(f *ssa.Function)
+		visit = func(f *ssa.Function) {
+			if f == nil || reach[f] || len(f.Blocks) == 0 || f.Pkg == nil || f.Pkg.Pkg.Path() != modPath+"/internal/compiler" {
+				return
+			}
+			reach[f] = true
+			for _, a := range f.AnonFuncs {
+				visit(a)
+			}
+			allInstrs(f, func(in ssa.Instruction) {
+				if ci, ok := in.(ssa.CallInstruction); ok {
+					visit(ci.Common().StaticCallee())
+				}
+			})
+		}
+		visit(c.ssaFunc("internal/compiler", "Compile"))
+		for _, fn := range c.srcFuncs("internal/compiler") {
+			fn := fn
+			if len(fn.Blocks) == 0 || !reach[fn] {
+				continue
+			}
+			nFns++
+			allInstrs(fn, func(in ssa.Instruction) {
+				call, ok := in.(ssa.CallInstruction)
+				if !ok {
+					return
+				}
+				cal := call.Common().StaticCallee()
+				if cal == nil || cal.Pkg == nil {
+					return
+				}
+				pk, nm := cal.Pkg.Pkg.Path(), cal.Name()
+				formats := (pk == "strconv" && (nm == "FormatFloat" || nm == "AppendFloat")) ||
+					(pk == "fmt" && (nm == "Sprintf" || nm == "Sprint" || nm == "Sprintln" || nm == "Fprintf" || nm == "Appendf"))
+				if !formats {
+					return
+				}
+				// is a floating-point value among the arguments (directly or boxed into the variadic list)?
+				hasFloat := false
+				var walk func(v ssa.Value, d int)
+				walk = func(v ssa.Value, d int) {
+					if d > 4 || v == nil {
+						return
+					}
+					if b, ok := v.Type().Underlying().(*types.Basic); ok && b.Info()&types.IsFloat != 0 {
+						if _, isK := v.(*ssa.Const); !isK {
+							hasFloat = true
+						}
+					}
+					switch x := v.(type) {
+					case *ssa.MakeInterface:
+						walk(x.X, d+1)
+					case *ssa.Slice:
+						if al, ok := x.X.(*ssa.Alloc); ok && al.Referrers() != nil {
+							for _, r := range *al.Referrers() {
+								if ia, ok := r.(*ssa.IndexAddr); ok && ia.Referrers() != nil {
+									for _, r2 := range *ia.Referrers() {
+										if st, ok := r2.(*ssa.Store); ok {
+											walk(st.Val, d+1)
+										}
+									}
+								}
+							}
+						}
+					}
+				}
+				for _, a := range call.Common().Args {
+					walk(a, 0)
+				}
+				if !hasFloat {
+					return
+				}
+				// error and panic messages are not program values
+				if callResultOnlyInPanic(in) {
+					return
+				}
+				bad++
+				c.bad("compile-time-format:"+fnKey(fn)+":"+pk+"."+nm, in.Pos(), "%s formats a floating-point number while compiling (%s.%s): the string form of a non-integer number depends on CONVFMT at run time, so a constant formatted ahead of time names a different string (array subscript, concatenation operand) than the same number held in a variable", fnKey(fn), pk, nm)
+			})
+		}
+		if bad == 0 {
+			if nFns < 10 {
+				c.undecided("compile-time-format", token.NoPos, "only %d functions reachable from compiler.Compile: the entry point was not found", nFns)
+			} else {
+				c.ok("compile-time-format", token.NoPos, "no function reachable from compiler.Compile (%d scanned) formats a floating-point number", nFns)
+			}
+		}
+	}
 	// in each getline-into-target clause the line is used only as numStr(line) / setLine / setField argument
 	for _, cl := range []string{"Getline", "GetlineField", "GetlineGlobal", "GetlineLocal", "GetlineSpecial", "GetlineArray"} {
 		cc := vm.clauses[cl]
@@ -818,4 +914,43 @@ func numStrProducerOf(c *Ctx, fnName string, lparen token.Pos, producers map[str
 		return ""
 	}
 	return res
+}
+
+// callResultOnlyInPanic: the value of the call is used only to build the argument of a panic (an error message).
+func callResultOnlyInPanic(in ssa.Instruction) bool {
+	v, ok := in.(ssa.Value)
+	if !ok || v.Referrers() == nil {
+		return false
+	}
+	seen := map[ssa.Value]bool{}
+	var only func(v ssa.Value, d int) bool
+	only = func(v ssa.Value, d int) bool {
+		if d > 5 || seen[v] {
+			return d <= 5
+		}
+		seen[v] = true
+		refs := v.Referrers()
+		if refs == nil || len(*refs) == 0 {
+			return false
+		}
+		for _, r := range *refs {
+			switch x := r.(type) {
+			case *ssa.Panic:
+			case *ssa.MakeInterface:
+				if !only(x, d+1) {
+					return false
+				}
+			case *ssa.Call:
+				// handed to an error constructor whose result is panicked
+				if !only(x, d+1) {
+					return false
+				}
+			case *ssa.DebugRef:
+			default:
+				return false
+			}
+		}
+		return true
+	}
+	return only(v, 0)
 }
